@@ -1,3 +1,4 @@
 pub mod program;
 pub mod loops;
 pub mod churn;
+pub mod hostile;
